@@ -116,7 +116,22 @@ def gen(chk):
         ops = [(r, c, 1 + (r + 2 * c) % 3) for r in range(R) for c in range(C) if (r * c) % 13 != 1]
         rng.shuffle(ops)
         cases.append(build_case(R, C, ops, 'int'))
+    # beyond the model's reach: > 65 535 stored cells, compared directly with the dense matrix
+    cases.append({'kind': 'scale', 'R': 270, 'C': 262, 'gap': 29, 'seed': rng.randrange(10 ** 6)})
+    if thorough:
+        cases.append({'kind': 'scale', 'R': 300, 'C': 300, 'gap': 7, 'seed': rng.randrange(10 ** 6)})
     return cases, n_exh
+
+
+def scale_probes(chk, scale):
+    if scale:
+        for c, o in zip(scale, chk.run_impl('C17', {'cases': scale})['cases']):
+            chk.count('scale-probe')
+            chk.extra.setdefault('scale_probes', []).append({'shape': [c['R'], c['C']], 'stored_cells': o.get('stored'), 'mismatches': o.get('n_mismatches', o.get('crash'))})
+            if o.get('n_mismatches') or 'crash' in o:
+                chk.report_violation('C17:scale', {'case': c, 'impl': o, 'theorem': 'C17_reads_are_dense',
+                                                   'explanation': 'a matrix with more stored cells than a 16-bit offset can count differs from the dense matrix it stands for (compared directly, no model)'},
+                                     what=f'C17:scale: {c["R"]}x{c["C"]} matrix with {o.get("stored")} stored cells differs from its dense matrix: {json.dumps(o.get("mismatches", o.get("crash")))[:300]}')
 
 
 def evaluate(chk, cases, tag='cases'):
@@ -148,6 +163,8 @@ def shrink(chk, case):
 
 def run(chk):
     cases, n_exh = gen(chk)
+    scale_probes(chk, [c for c in cases if c['kind'] == 'scale'])
+    cases = [c for c in cases if c['kind'] != 'scale']
     terms, obs, failing = evaluate(chk, cases)
     for c in cases:
         chk.count(c['kind'] + ':' + c['dtype'])
